@@ -62,7 +62,7 @@ pub fn gen_c11(base_seed: u64, batch: &str, run: u64, rng: &mut Rng) -> Scenario
             cfg.clauses.push(ClauseSpec {
                 m: M::VReq,
                 form: Form::EachCall,
-                patterns: vec![PatternSpec { pred: (rng.next() as u32) & 0xf, has_matcher: true, segs: vec![Seg { resp: Resp::Returns, quant: Quant::Unq }] }],
+                patterns: vec![PatternSpec { pred: (rng.next() as u32) & 0xf, has_matcher: true, macro_form: false, segs: vec![Seg { resp: Resp::Returns, quant: Quant::Unq }] }],
             });
         }
     }
@@ -236,8 +236,10 @@ pub fn check_c11(scn: &Scenario) -> Checked {
             }
             let (p, m) = unmet(&flat, pre);
             let expect_fail = !p.is_empty() || !m.is_empty();
+            if !crate::oracle::ordinary_verdict_expected(scn, &res.log, o) {
+                continue;
+            }
             let failed = match &o.result {
-                OpResult::Panicked(msg) if msg.contains("clones still alive") || msg.contains("different thread") => continue,
                 OpResult::Panicked(_) | OpResult::ExitCode(false) => true,
                 OpResult::Quiet | OpResult::ExitCode(true) => false,
                 _ => continue,
